@@ -78,6 +78,9 @@ def generate(repo):
     # LLR width and framer size
     m = find1(r"llr\s*<\s*FloatType\s*,\s*(\d+)\s*>\s*\(\s*sample\s*\)", d, "llr width")
     out.append(f"Definition LLR_WIDTH : Z := {int(m.group(1))}.")
+    fd = strip_cpp_comments(read(repo, "include/m17cxx/M17FrameDecoder.h"))
+    mv = find1(r"Viterbi\s*<\s*decltype\(trellis_\)\s*,\s*(\d+)\s*>\s*viterbi_", fd, "frame decoder's Viterbi LLR width")
+    out.append(f"Definition VITERBI_LLR_WIDTH : Z := {int(mv.group(1))}.   (* M17FrameDecoder: Viterbi<decltype(trellis_), N> *)")
     m = find1(r"M17Framer\s*<\s*(\d+)\s*>\s*framer\s*;", d, "framer size")
     out.append(f"Definition FRAMER_BITS : Z := {int(m.group(1))}.")
     m = find1(r"int8_t\s+polarity\s*=\s*(-?\d+)\s*;", d, "polarity")
@@ -102,8 +105,7 @@ def generate(repo):
     guarded = bool(re.search(r"ratio\s*=\s*level_1\s*/\s*level_2\s*;\s*if\s*\(\s*!\s*std::isfinite\s*\(\s*ratio\s*\)\s*\)\s*ratio\s*=\s*0(\.0)?\s*;", body)) \
         and m.group(3) == "ratio"
     out.append(f"Definition DCD_RATIO_GUARDED : bool := {'true' if guarded else 'false'}.   (* if (!std::isfinite(ratio)) ratio = 0.0; *)")
-    find1(r"triggered_\s*=\s*triggered_\s*\?\s*level_\s*>\s*ltrigger_\s*:\s*level_\s*>\s*htrigger_\s*;", body, "DCD hysteresis")
-    find1(r"void\s+unlock\s*\(\s*\)\s*\{\s*triggered_\s*=\s*false\s*;\s*\}", h, "DataCarrierDetect::unlock")
+    # the hysteresis statement and unlock() are not anchored textually: their behaviour is tied by the member-value differential of C06
 
     c = strip_cpp_comments(read(repo, "include/m17cxx/Correlator.h"))
     m = find1(r"static\s+constexpr\s+size_t\s+SYMBOLS\s*=\s*(\d+)\s*;\s*static\s+constexpr\s+size_t\s+SAMPLES_PER_SYMBOL\s*=\s*(\d+)\s*;", c, "Correlator geometry")
